@@ -10,6 +10,8 @@ func init() {
 			{{2, 2, 3}, {3, 2}}, {{2, 3}, {2, 3, 2}}, {{2, 2, 3}, {2, 3, 2}}, {{1, 2, 3}, {2, 3, 1}}, {{2, 1, 3}, {1, 3, 2}}, {{2, 2, 3}, {3, 3, 2}},
 			{{3}, {2, 3, 2}}, {{2, 2, 3}, {3}}, {{2, 1, 2, 3}, {2, 3, 1}}, {{1, 2, 1, 2}, {2, 1, 2, 2}}, {{2, 1, 1}, {1, 1, 2}}, {{1, 1}, {1, 1}}, {{1}, {1}},
 			{{2, 1, 2, 2}, {3, 2, 1}},
+			// three batch axes with the outer and the middle one both > 1 (the batch odometer carries twice)
+			{{2, 3, 2, 1, 2}, {2, 3, 2, 2, 2}}, {{2, 3, 2, 2, 2}, {3, 1, 2, 1}}, {{2, 1, 2, 1, 2, 2}, {2, 1, 2, 2, 1}},
 			{{2, 1, 1}, {2, 1, 1}}, {{1, 1, 1}, {1, 1, 3}}, {{2, 2, 1}, {2, 1, 1}}, {{2, 1, 2}, {2, 2, 1}}, {{1}, {1, 2}}, {{3, 1, 1}, {1}},
 		}
 		if th {
@@ -63,7 +65,7 @@ func init() {
 		}
 		p.Bounds = []string{
 			"exact real arithmetic (float elements as reals): every element, alpha, beta, coefficient, intercept, offset and scale is a solver variable; equality with the reference is an identity over the reals (nonlinear real arithmetic)",
-			"MatMul: 24 (28 thorough) operand shape pairs of rank 1..4 (5) with extents {1,2,3}, both orders: vector.vector, vector.matrix, matrix.vector, stacks with broadcastable and non-broadcastable batch shapes, inner-dimension mismatches; each case applies the same operator instance to the same tensors twice",
+			"MatMul: 33 (37 thorough) operand shape pairs of rank 1..6 with extents {1,2,3}, both orders: vector.vector, vector.matrix, matrix.vector, stacks with broadcastable and non-broadcastable batch shapes, inner-dimension mismatches; each case applies the same operator instance to the same tensors twice",
 			"Gemm: (M,K,N) in 4 (7) size triples x transA x transB x C in {absent, scalar, (N), (1,N), (M,1), (M,N), (M), rank 3, (1)} x alpha/beta symbolic or default, plus ill-shaped A",
 			"LinearRegressor: targets 1..3 x features 1..3 x intercepts present/absent x batch 1..2 (instance applied twice); Scaler: X of rank 1..3, offset/scale of length C, 1 and C+1 (instance applied twice)",
 		}
